@@ -203,6 +203,61 @@ class Execution:
         return self.preemptions_before(len(self.choices))
 
 
+_MUTATORS = frozenset("append add update extend setdefault pop clear insert remove discard popitem "
+                      "appendleft popleft rotate sort reverse".split())
+
+
+def state_writers(package_dir, skip=()):
+    """(file name, co_firstlineno) of every function of the package - outside the files in `skip` -
+    that WRITES state which can outlive the call: a store to (or deletion of) an attribute or a
+    subscript of an attribute, a mutating method call on an attribute, a global/nonlocal
+    declaration.  Constructors are left out (the object is not shared yet).  Found by an AST scan of
+    the tree under test, so a memo added by a change is picked up without touching the harness.
+    Lines of these functions are scheduling points too: memo tables on shared pattern objects
+    and class-level tables of other modules are shared state of concurrent queries."""
+    import ast
+    import os
+    out = set()
+    for dp, _dn, fns in os.walk(package_dir):
+        for f in fns:
+            path = os.path.join(dp, f)
+            if not f.endswith(".py") or path in skip:
+                continue
+            try:
+                tree = ast.parse(open(path).read())
+            except SyntaxError:
+                continue
+            for node in ast.walk(tree):
+                if not isinstance(node, (ast.FunctionDef, ast.AsyncFunctionDef)):
+                    continue
+                if node.name in ("__init__", "__new__", "__post_init__"):
+                    continue
+                hit = False
+                for sub in ast.walk(node):
+                    tg = []
+                    if isinstance(sub, ast.Assign):
+                        tg = sub.targets
+                    elif isinstance(sub, (ast.AugAssign, ast.AnnAssign)):
+                        tg = [sub.target]
+                    elif isinstance(sub, ast.Delete):
+                        tg = sub.targets
+                    for t in tg:
+                        for tt in ast.walk(t):
+                            if isinstance(tt, ast.Attribute) and isinstance(tt.ctx, (ast.Store, ast.Del)):
+                                hit = True
+                            if (isinstance(tt, ast.Subscript) and isinstance(tt.ctx, (ast.Store, ast.Del))
+                                    and isinstance(tt.value, ast.Attribute)):
+                                hit = True
+                    if isinstance(sub, (ast.Global, ast.Nonlocal)):
+                        hit = True
+                    if (isinstance(sub, ast.Call) and isinstance(sub.func, ast.Attribute)
+                            and sub.func.attr in _MUTATORS and isinstance(sub.func.value, ast.Attribute)):
+                        hit = True
+                if hit:
+                    out.add((path, min([d.lineno for d in node.decorator_list] + [node.lineno])))
+    return frozenset(out)
+
+
 def _make_tracer(s, tid, watched, opcodes, calls=False):
     """`calls`: additionally a scheduling point at the entry of and the return from every Python
     function of an UNWATCHED file that is called from a watched frame - the switch then happens
@@ -220,7 +275,8 @@ def _make_tracer(s, tid, watched, opcodes, calls=False):
 
     def glob(frame, event, arg):
         if event == "call":
-            if frame.f_code.co_filename in watched:
+            code = frame.f_code
+            if code.co_filename in watched or (code.co_filename, code.co_firstlineno) in watched:
                 if opcodes:
                     frame.f_trace_opcodes = True
                 return local
